@@ -82,6 +82,10 @@ def _select_all(pid=None, tier='quick', fn_key=None):
                 continue
         if fn_key is not None and fn_key not in h.get('fn_keys', []):
             continue
+        if h.get('tier') == 'cex':
+            # counter-example finders: the proof run does not finish (16-bit multiplier/divider), the SAT search for a failing
+            # input of a changed function may; never part of a tier, used only by cex.search (time-out = undecided)
+            continue
         if tier == 'quick' and h.get('tier', 'quick') != 'quick':
             continue
         out.append(h)
